@@ -421,6 +421,7 @@ class Unit:
             text = R.r1_erase_ctor(text, log)
         if 'R2' in rules:
             text = R.r2_ref_patterns(text, log)
+            text = R.r2_closure_params(text, log)
         if kv.get('r9'):
             text = R.r9_iter(text, log, kv['r9'].split(';'))
         # --- split signature / body ---
